@@ -1456,7 +1456,7 @@ func opcodeLShift(op *ParsedOpcode, t *thread) error {
 // stack items or with the script being executed.
 func lshiftBytes(x []byte, n int64) []byte {
 	result := make([]byte, len(x))
-	if n >= int64(len(x))*8 {
+	if n < 0 || n >= int64(len(x))*8 {
 		return result
 	}
 
@@ -1498,7 +1498,7 @@ func opcodeRShift(op *ParsedOpcode, t *thread) error {
 // stack items or with the script being executed.
 func rshiftBytes(x []byte, n int64) []byte {
 	result := make([]byte, len(x))
-	if n >= int64(len(x))*8 {
+	if n < 0 || n >= int64(len(x))*8 {
 		return result
 	}
 
